@@ -49,6 +49,8 @@ struct Tally {
     remedy_used: u64,
     in_flight_states: u64,
     fault_runs: u64,
+    cut_states: u64,
+    cut_regions: u64,
     problems: Vec<(String, String, serde_json::Value)>,
     sample: Option<serde_json::Value>,
 }
@@ -194,6 +196,50 @@ fn run_workload(prelude: &[Op], workload: &[Op], start_idx: Idx, backend: Backen
     t
 }
 
+/// Cut pass: for every flush-bearing operation of the workload, every combination
+/// of per-index write prefixes that is not a journal prefix (see crash::cut_regions).
+fn run_cuts(prelude: &[Op], workload: &[Op], start_idx: Idx, backend: Backend, max_partial: Option<usize>, only: Option<(usize, Vec<usize>)>, shared: &Shared) -> Tally {
+    let mut t = Tally::default();
+    util::block_on(async {
+        let rec = crash::record_with_prelude(prelude, workload, start_idx, backend, None).await;
+        if let Some(e) = &rec.open_error {
+            t.problems.push(("record|open".into(), format!("fault-free open failed: {e}"), json!({})));
+            return;
+        }
+        for region in crash::cut_regions(&rec) {
+            if region.start < rec.prelude_end {
+                continue;
+            }
+            if let Some((op, _)) = &only
+                && *op != region.op
+            {
+                continue;
+            }
+            t.cut_regions += 1;
+            let exp = crash::cut_expectation(&rec, &region);
+            let vectors = match &only {
+                Some((_, v)) => vec![v.clone()],
+                None => crash::cut_vectors(&region, max_partial),
+            };
+            for lens in vectors {
+                let content = crash::cut_content(&rec, &region, &lens);
+                t.cut_states += 1;
+                t.crash_states += 1;
+                t.in_flight_states += 1;
+                let ctx = json!({"workload": workload, "prelude": prelude, "start_idx": start_idx, "backend": backend,
+                                 "cut": {"op": region.op, "chains": region.chains.iter().map(|(n, v)| (n.clone(), v.len())).collect::<Vec<_>>(), "written": lens},
+                                 "in_flight": exp.in_flight});
+                check_crash_state(&content, &exp, backend, false, shared, &mut t, &ctx).await;
+                if t.sample.is_none() {
+                    t.sample = Some(json!({"workload": format!("{workload:?}"), "backend": format!("{backend:?}"), "cut_of_operation": region.op,
+                        "index_chains_and_lengths": region.chains.iter().map(|(n, v)| (n.clone(), v.len())).collect::<Vec<_>>(), "writes_landed_per_chain": lens}));
+                }
+            }
+        }
+    });
+    t
+}
+
 fn replay(run: &mut Run, ctx: &serde_json::Value, property: &str) {
     let workload: Vec<Op> = serde_json::from_value(ctx["workload"].clone()).expect("workload");
     let start_idx: Idx = serde_json::from_value(ctx["start_idx"].clone()).expect("idx");
@@ -201,6 +247,17 @@ fn replay(run: &mut Run, ctx: &serde_json::Value, property: &str) {
     let shared = Shared { seen: Mutex::new(HashSet::new()) };
     let mut t = Tally::default();
     let prelude: Vec<Op> = ctx.get("prelude").and_then(|v| serde_json::from_value(v.clone()).ok()).unwrap_or_default();
+    if let Some(cut) = ctx.get("cut") {
+        let op = cut["op"].as_u64().unwrap() as usize;
+        let lens: Vec<usize> = serde_json::from_value(cut["written"].clone()).expect("written");
+        NESTED.with(|n| n.set(true));
+        let t = run_cuts(&prelude, &workload, start_idx, backend, None, Some((op, lens)), &shared);
+        run.add("evaluations", t.recoveries);
+        for (sig, msg, c) in t.problems {
+            run.violation(Violation { signature: format!("{property}|crash|{sig}"), summary: msg, replay: c });
+        }
+        return;
+    }
     util::block_on(async {
         if let Some(i) = ctx.get("ambiguous_failure_at_mutation").and_then(|v| v.as_u64()) {
             if ctx.get("fault_answer").and_then(|v| v.as_str()) == Some("ErrBefore") {
@@ -430,12 +487,92 @@ fn main() {
           }
         }
     }
+
+    // ---- cut pass: downward-closed cuts of the concurrent index flushes of one collection flush
+    if !c04 && run.violation_count() == 0 && Instant::now() < deadline {
+        let small = Idx { name: true, age: true, body: true, emb: true, ..Idx::NONE };
+        let btrees = Idx { name: true, age: true, codes: true, tags: true, ..Idx::NONE };
+        let f2: Vec<Op> = vec![Op::Add(0), Op::Add(1), Op::Flush];
+        // (label, index set, prelude, workload, backend, max strictly-partial chains, nested crashes in recovery)
+        let mut plan: Vec<(&str, Idx, Vec<Op>, Vec<Op>, Backend, Option<usize>, bool)> = vec![
+            ("small/first-flush", small, vec![], vec![Op::Add(0), Op::Add(1), Op::Flush], Backend::Mem, None, false),
+            ("small/update", small, f2.clone(), vec![Op::Update(1, 0), Op::Update(1, 5), Op::Update(2, 7), Op::Flush], Backend::Mem, None, false),
+            ("small/remove-add", small, f2.clone(), vec![Op::Remove(2), Op::Add(3), Op::Flush], Backend::Mem, None, false),
+            ("small/close", small, f2.clone(), vec![Op::Update(1, 5), Op::Update(2, 8), Op::Reopen], Backend::Mem, None, false),
+            ("btrees/first-flush", btrees, vec![], vec![Op::Add(0), Op::Add(1), Op::Flush], Backend::Mem, None, false),
+            ("btrees/update", btrees, f2.clone(), vec![Op::Update(1, 13), Op::Update(2, 8), Op::Flush], Backend::Mem, None, false),
+            ("all/first-flush", Idx::ALL, vec![], vec![Op::Add(0), Op::Add(1), Op::Flush], Backend::Mem, Some(1), false),
+        ];
+        if run_thorough {
+            for p in plan.iter_mut() {
+                p.6 = true;
+            }
+            plan.push(("all/update", Idx::ALL, f2.clone(), vec![Op::Update(1, 5), Op::Remove(2), Op::Add(3), Op::Flush], Backend::Mem, Some(2), false));
+            plan.push(("all/first-flush-2", Idx::ALL, vec![], vec![Op::Add(0), Op::Add(1), Op::Flush], Backend::Mem, Some(2), false));
+            plan.push(("all/first-flush-3", Idx::ALL, vec![], vec![Op::Add(0), Op::Add(1), Op::Flush], Backend::Mem, Some(3), false));
+            let pair = Idx { name: true, body: true, ..Idx::NONE };
+            let pair2 = Idx { age: true, emb: true, ..Idx::NONE };
+            for b in [Backend::Meta, Backend::Enc] {
+                plan.push(("pair/first-flush", pair, vec![], vec![Op::Add(0), Op::Add(1), Op::Flush], b, None, false));
+                plan.push(("pair/update", pair, f2.clone(), vec![Op::Update(1, 5), Op::Flush], b, None, false));
+                plan.push(("pair2/first-flush", pair2, vec![], vec![Op::Add(0), Op::Add(1), Op::Flush], b, None, false));
+                plan.push(("pair2/remove", pair2, f2.clone(), vec![Op::Remove(1), Op::Flush], b, None, false));
+            }
+            // every depth-2 workload over the flushed2 alphabet followed by a flush, small index set
+            let alpha = [Op::Remove(1), Op::Add(2), Op::Update(1, 0), Op::Update(2, 8), Op::Remove(2), Op::Add(3), Op::Update(1, 5), Op::SaveExt(1)];
+            for a in &alpha {
+                for b in &alpha {
+                    plan.push(("small/depth2", small, f2.clone(), vec![a.clone(), b.clone(), Op::Flush], Backend::Mem, None, false));
+                }
+            }
+        }
+        let tallies = util::par_map(plan.clone(), threads, |(label, idx, prelude, w, backend, maxp, nested_on)| {
+            if Instant::now() > deadline {
+                return None;
+            }
+            NESTED.with(|n| n.set(nested_on));
+            Some((label, run_cuts(&prelude, &w, idx, backend, maxp, None, &shared)))
+        });
+        let mut finished = 0usize;
+        let mut per_workload: Vec<String> = Vec::new();
+        for (label, t) in tallies.into_iter().flatten() {
+            finished += 1;
+            per_workload.push(format!("{label}: {} region(s), {} cut states", t.cut_regions, t.cut_states));
+            run.add("cut_workloads", 1);
+            run.add("cut_regions", t.cut_regions);
+            run.add("cut_crash_states", t.cut_states);
+            run.add("crash_states", t.crash_states);
+            run.add("evaluations", t.recoveries);
+            run.add("nontrivial_states", t.nontrivial);
+            run.add("nested_crash_states", t.nested);
+            run.add("dedup_hits", t.dedup_hits);
+            run.add("in_flight_crash_states", t.in_flight_states);
+            if let Some(s) = t.sample
+                && run.get("cut_samples") < 2
+            {
+                run.add("cut_samples", 1);
+                run.sample(s);
+            }
+            for (sig, msg, ctx) in t.problems {
+                run.violation(Violation { signature: format!("{property}|crash|cut|{sig}"), summary: format!("{msg} [{}]", ctx), replay: ctx });
+            }
+        }
+        run.set("cut_pass_per_workload", json!(per_workload));
+        if finished < plan.len() {
+            run.cap_hit(&format!("time budget inside the cut pass: {finished}/{} cut workloads", plan.len()));
+        } else {
+            completed.push(format!("cut pass: {} workloads", plan.len()));
+        }
+        if run.get("cut_crash_states") == 0 {
+            vcore::report::machinery("cut pass enumerated no state: the index-write regions were not recognised");
+        }
+    }
     let distinct = shared.seen.lock().len() as u64;
     run.set("distinct_crash_states_recovered", json!(distinct));
     let nt = run.get("nontrivial_states");
     run.set("distinct_nontrivial", json!(nt));
     run.set("completed", json!(completed));
-    run.rule("workloads = every op sequence to the depth bound over the alphabet {add, rejected add, update, remove, flush, save_extension, compact, clean reopen, index create/remove via reopen}; for each: every journal prefix k (crash after the k-th backend mutation) -> recover -> acknowledgement model + full index comparison + continuation (add, flush, clean reopen) -> every strict prefix of the recovery's own mutations -> recover again; plus one failed backend mutation - both answers: the write landed but an error was returned, and nothing landed and an error was returned - at every mutation of every workload up to the stated depth, with the workload continuing on the same handle; recoveries are deduplicated by (store content, expectation, backend), so every evaluation is a distinct crash state; non-trivial = the acknowledgement model holds at least one document (i.e. not a crash inside collection creation)");
-    run.assume("crash model: each backend mutation is atomic, a sequence stops anywhere (the repo's own FaultStore model); concurrent sub-writes of one flush are explored in the one order the deterministic executor produces");
+    run.rule("workloads = every op sequence to the depth bound over the alphabet {add, rejected add, update, remove, flush, save_extension, compact, clean reopen, index create/remove via reopen}; for each: every journal prefix k (crash after the k-th backend mutation) -> recover -> acknowledgement model + full index comparison + continuation (add, flush, clean reopen) -> every strict prefix of the recovery's own mutations -> recover again; plus one failed backend mutation - both answers: the write landed but an error was returned, and nothing landed and an error was returned - at every mutation of every workload up to the stated depth, with the workload continuing on the same handle; recoveries are deduplicated by (store content, expectation, backend), so every evaluation is a distinct crash state; non-trivial = the acknowledgement model holds at least one document (i.e. not a crash inside collection creation); cut pass: for the flush-bearing operations of a fixed list of workloads, every vector of per-index-chain write-prefix lengths that is not itself a journal prefix (full product for index sets of <= 4 chains; for the full 8-chain fixture at most 2 (thorough: 3) chains strictly partial, the others untouched or complete)");
+    run.assume("crash model: each backend mutation is atomic, a sequence stops anywhere (the repo's own FaultStore model); the index flushes joined inside one collection flush write only below their own directories and are mutually independent, so a crash state of that phase is any combination of per-index prefixes of the journalled per-index write order (cut pass); the order of writes INSIDE one index flush is the one the deterministic executor produces (bucket-put subsets inside one index flush are enumerated by C10/C11/C12 crash parts)");
     run.finish();
 }
